@@ -20,6 +20,11 @@ def gen_geometry(rng, kind, sph):
     a0 = rng.uniform(8, 172)
     total = 0.0
     thick_scale = wg.num(rng, 3e4, 2e5)
+    widen = rng.random() < 0.15
+    t1_prev = None
+    if widen:
+        nseg = rng.randint(1, 2)
+        a0 = rng.uniform(45, 135)
     for i in range(nseg):
         mode = rng.random()
         if mode < 0.45:
@@ -32,6 +37,12 @@ def gen_geometry(rng, kind, sph):
         L = wg.num(rng, 5e4, 4e5)
         t0 = wg.R(thick_scale * rng.uniform(0.5, 1.0))
         t1 = t0 if rng.random() < 0.5 else wg.R(thick_scale * rng.uniform(0.5, 1.0))
+        if widen:
+            # a short body that thickens strongly down dip: its deep part lies beyond total length + (thickness at the top)
+            L = wg.R(thick_scale * rng.uniform(0.2, 0.8))
+            t0 = wg.R(thick_scale * rng.uniform(0.05, 0.3)) if i == 0 else t1_prev
+            t1 = wg.R(thick_scale * rng.uniform(0.8, 1.5))
+            t1_prev = t1
         s = {'length': L, 'thickness': [t0, t1] if (t0 != t1 or rng.random() < 0.5) else [t0], 'angle': [a0r, a1r] if (a0r != a1r or rng.random() < 0.5) else [a0r]}
         c0 = c1 = 0.0
         if kind == 'subducting plate' and rng.random() < 0.35:
@@ -107,7 +118,7 @@ def gen_points(rng, t, ctx, n, Hclass):
             else:
                 a = g.a0 + u * (g.a1 - g.a0)
                 bh, bv = g.ch + math.sin(a) / g.kappa, g.cv - math.cos(a) / g.kappa
-            off = rng.uniform(-1.5, 2.5) * t['table'][0][0] if rng.random() < 0.8 else rng.uniform(-1e3, 1e3)
+            off = rng.uniform(-1.5, 2.5) * max(max(tt[0], tt[1]) for tt in t['table']) if rng.random() < 0.8 else rng.uniform(-1e3, 1e3)
             h = bh - math.sin(a) * off
             v = bv + math.cos(a) * off
         else:
